@@ -39,7 +39,7 @@ static void inc_enc_##P(unsigned char *c, size_t *clen, const unsigned char *m, 
     P##_aead_start(st, ad, adlen);                                                                    \
     if (inplace && mlen) memcpy(c, m, mlen);                                                          \
     for (size_t i = 0; i < np; ++i) {                                                                 \
-        P##_aead_encrypt_block(st, inplace ? c + off : m + off, c + off, parts[i]);                   \
+        P##_aead_encrypt_block(st, inplace ? c + off : (m ? m + off : 0), c + off, parts[i]);                   \
         off += parts[i];                                                                              \
     }                                                                                                 \
     P##_aead_encrypt_finalize(st, c + mlen);                                                          \
